@@ -65,7 +65,7 @@ def gen_file(r, fi, nblocks, scripts, counter):
         attrs.insert(1, ("data-rev", str(r.randint(1, 8))))
         layout = "line"
         if ext in ("rs", "go", "js") and r.random() < 0.25:
-            layout = r.choice(["shared", "shared-mb", "mltag", "mltag-late"])
+            layout = r.choice(["shared", "shared-mb", "mltag", "mltag-late", "mlcomment", "mlcomment"])
         lines = sb.lines
         if layout.startswith("shared"):
             lines = [FILLER[ext] % (1000 + counter[0])]
@@ -74,7 +74,7 @@ def gen_file(r, fi, nblocks, scripts, counter):
     return path, ext, op, blocks
 
 
-def render(ext, op, blocks, fill):
+def render(ext, op, blocks, fill, tail=True):
     """-> (lines, info) where info[name] = dict(s1,s2,e1,e2, tag_line, layout)."""
     out, info = [], {}
 
@@ -97,6 +97,16 @@ def render(ext, op, blocks, fill):
             prose = "日本語のコメントです — " if b.layout == "shared-mb" else ""
             out.append("/* %s<block %s> */ %s /* </block>%s */" % (prose, render_attrs(b.attrs), b.lines[0], getattr(b, "end_suffix", "")))
             info[b.name] = {"s1": s, "s2": s, "e1": s, "e2": s}
+        elif b.layout == "mlcomment":
+            # `/* <block ..>` NEWLINE `   free text N */`: the content starts on a later line than the tag
+            s = len(out) + 1
+            out.append("/* <block %s>" % render_attrs(b.attrs))
+            out.append("   free text %s */" % getattr(b, "free_text", "0"))
+            s2 = len(out)
+            for l in b.lines:
+                out.append(l)
+            out.append("// </block>%s" % getattr(b, "end_suffix", ""))
+            info[b.name] = {"s1": s, "s2": s2, "e1": len(out), "e2": len(out), "tagline": s}
         else:   # mltag / mltag-late (the tag opens far to the right, after code; its attributes continue at the left margin)
             s = len(out) + 1
             late = b.layout == "mltag-late"
@@ -110,7 +120,8 @@ def render(ext, op, blocks, fill):
                 out.append(l)
             out.append("%s </block>%s" % ("//", getattr(b, "end_suffix", "")))
             info[b.name] = {"s1": s, "s2": s2, "e1": len(out), "e2": len(out)}
-        pad(3)
+        if tail or b is not blocks[-1]:
+            pad(3)
     return out, info
 
 
@@ -128,10 +139,12 @@ def one_case(ctx, r, desc):
         files.append(gen_file(r, fi, r.randint(1, 6), scripts, counter))
     fillA = [0]
     stateA = {}
+    # one file may end with its last block's end tag and *no* final newline; the new state then adds the newline (and maybe a line)
+    no_eol = r.choice([f[0] for f in files]) if r.random() < 0.2 else None
     for path, ext, op, blocks in files:
-        lines, info = render(ext, op, blocks, fillA)
+        lines, info = render(ext, op, blocks, fillA, tail=(path != no_eol))
         stateA[path] = (lines, info)
-    root = run.make_repo({p: "\n".join(l) + "\n" for p, (l, _i) in stateA.items()}, real_git=True, commit=True)
+    root = run.make_repo({p: "\n".join(l) + ("" if p == no_eol else "\n") for p, (l, _i) in stateA.items()}, real_git=True, commit=True)
     try:
         # ---- assign edit classes and build state B -------------------------------------------------
         fillB = [0]
@@ -151,7 +164,10 @@ def one_case(ctx, r, desc):
                     b.cls = ENDONLY
                 else:
                     b.cls = NONE
-                if b.cls == BOTH:
+                if b.cls == BOTH and b.layout == "mlcomment" and r.random() < 0.6:
+                    b.free_text = str(r.randint(1, 9))      # edit inside the start comment but outside the tag (+ content below)
+                    b.comment_edit = True
+                elif b.cls == BOTH:
                     bump_rev(b)
                 if b.cls in (INSIDE, BOTH):
                     if b.layout.startswith("shared"):
@@ -176,7 +192,9 @@ def one_case(ctx, r, desc):
                 elif b.cls == ENDONLY:
                     b.end_suffix = " v%d" % r.randint(2, 9)
                 classes[(path, b.name)] = b.cls
-            lines, info = render(ext, op, blocks, fillB)
+            lines, info = render(ext, op, blocks, fillB, tail=(path != no_eol))
+            if path == no_eol and r.random() < 0.5:
+                lines.append(FILLER[ext] % (700000 + len(lines)))      # code appended after the block that used to end the file
             # OUTSIDE edit: change a filler line that adjoins no tag (the middle one of a 3-line pad)
             if r.random() < 0.4:
                 cand = [i for i in range(1, len(lines) - 1)
@@ -244,7 +262,9 @@ def judge(r, files, stateA, stateB, classes, diff, ctxw, globs, lst, res, scan, 
                     d_adj = True
             shared = b.layout.startswith("shared")
             if shared:
-                ok = (cls == NONE and not d_start) or (cls != NONE and d_start)
+                # character-level classes only make sense for a line that git reports as replaced 1:1
+                one_to_one = any(len(g.removed) == 1 and len(g.added) == 1 and g.added[0] == ib["s1"] and g.removed[0] == ia["s1"] for g in groups)
+                ok = (cls == NONE and not d_start) or (cls != NONE and d_start and one_to_one)
                 v = cls if ok and not d_adj else "dc"
             elif cls == INSIDE:
                 v = INSIDE if (d_inside and not d_start and not d_end) else "dc"
@@ -254,6 +274,8 @@ def judge(r, files, stateA, stateB, classes, diff, ctxw, globs, lst, res, scan, 
                 v = TAGONLY if (d_start and not d_inside and not d_end and not d_adj) else "dc"
             elif cls == ENDONLY:
                 v = ENDONLY if (d_end and not d_inside and not d_start and not d_adj) else "dc"
+            elif d_end and not (d_inside or d_start):
+                v = ENDONLY       # e.g. only the line terminator of the end-tag line changed (file used to end without newline)
             else:
                 v = NONE if not (d_inside or d_start or d_end or d_adj) else "dc"
             verdict[(path, b.name)] = v
